@@ -1260,6 +1260,9 @@ func heapProgram(r *R, prof string) *Prog {
 	switch prof {
 	case "C05":
 		nops := 8 + r.Intn(28)
+		if boosted() {
+			nops *= 3
+		}
 		p.newContainer()
 		p.do(&Op{Name: "NewList", Vals: nil})
 		for len(p.ops) < nops && !p.broken {
@@ -1272,6 +1275,9 @@ func heapProgram(r *R, prof string) *Prog {
 		}
 	case "C06":
 		nops := 8 + r.Intn(28)
+		if boosted() {
+			nops *= 3
+		}
 		p.do(&Op{Name: "NewObject", Vals: nil})
 		p.newContainer()
 		for len(p.ops) < nops && !p.broken {
